@@ -68,6 +68,7 @@ def gen_cases(tier, seed):
         orders = [[int(x) for x in rng.integers(0, 3, size=3)], [int(x) for x in rng.integers(0, 5, size=3)], [1, 0, 2]]
         cases.append({"shells": shells, "points": pts, "orders": orders, "transform": None,
                       "classes": classes + ["pt:many(%d)" % npts, "pt:center", "T:none", "lmax:%d" % max(ls)] + ["o:%d%d%d" % tuple(o) for o in orders], "cost": npts * 4})
+    cases += bases.dup_variants("C05", seed, tier, cases, 7, ok=lambda c: c.get("transform") is None)  # one shell listed twice as the same object
     return cases
 
 
